@@ -244,7 +244,7 @@ def sensitivity(repo: Repo, prop: str, funcs: list[str], known: dict, limit: int
                 by_rule[r] = by_rule.get(r, 0) + 1
             if len(killed_samples) < 8:
                 killed_samples.append(f"{m.label} -> {','.join(info)}")
-        elif status == "survived" and len(survivors) < 25:
+        elif status == "survived" and (len(survivors) < 25 or os.environ.get("VERIF_ALL_SURVIVORS")):
             survivors.append(m.label)
         elif status in ("undecided", "error") and len(survivors) < 40:
             survivors.append(f"{m.label} -> {status}: {info[0] if info else ''}")
